@@ -15,7 +15,7 @@ def run(tier):
                       "catalogue concurrently and their id logs + output hashes are validated by ObjIdsTrace. A negative "
                       "control (output depending on id parity) must be refuted by TLC.")
     ck.assumptions = ["the object counter is the only state shared between compilations (fetch_add is atomic)",
-                      "catalogue: mock graphs needing duplication/space assignment, cmap, name, FontBuilder "
+                      "catalogue: mock graphs needing duplication/space assignment, a GSUB of 24 equal lookups that needs extension promotion, cmap, name, FontBuilder; one thread compiling until > 150 000 ids are used "
                       "(GPOS/gvar/IVS/klippa values are exercised for determinism inside C16/C10/C11/C17's own checks)",
                       "hash-seed independence is sampled by repeated compilations in one process (fresh RandomState per map) "
                       "and, in the thorough tier, by fresh processes"]
@@ -32,6 +32,9 @@ def run(tier):
     ck.cov["parts"]["tlc:negative-control"] = {"refuted": True, "error": neg.error}
     res = vlib.run_harness("fv-write", ["c07", "gaps", "--gaps", r.out])
     ck.add_harness("replay:gaps", res)
+    # one thread, > 150 000 object ids (thorough 600 000): the counter moves far, the bytes must not
+    res = vlib.run_harness("fv-write", ["c07", "longrun", "--ids", 150000 if tier == "quick" else 600000], timeout=3000)
+    ck.add_harness("replay:longrun", res)
     # every graph of two C05 families: repeated compilation under fresh hash seeds and id gaps
     for fam in ["enum4"] if tier == "quick" else ["enum4", "enum3", "enum4t"]:
         rg = vlib.run_tlc(wd, "GraphPackMC", cfg="GraphPackMC_%s.cfg" % fam, workers=6, out_name="g_" + fam + ".out", timeout=3000)
